@@ -167,6 +167,47 @@ func main() {
 		sh.Add(vlib.App("CFrame", frameTerm(f), vlib.Bytes(inner), res),
 			map[string]interface{}{"op": "frame", "messages": n}, "frame", n > 0)
 	}
+	// 2b. damaged encodings: every kind of cut and a few flipped bytes of small messages and frames,
+	// handed (snappy-wrapped again) to DecodeMessage / DecodeFrame - an error is an answer, a value
+	// that was not encoded is not
+	for i := 0; i < 150*cfg.Mult; i++ {
+		m := randMsg()
+		if len(m.Payload) > 40 {
+			m.Payload = m.Payload[:40]
+		}
+		inner, _ := snappy.Decode(nil, m.Encode())
+		cut := inner[:r.Intn(len(inner)+1)]
+		if r.Intn(4) == 0 && len(cut) > 0 {
+			cut = append([]byte{}, cut...)
+			cut[r.Intn(len(cut))] ^= byte(1 << uint(r.Intn(8)))
+		}
+		var out message.Message
+		var derr error
+		p, _ := vlib.Catch(func() { out, derr = message.DecodeMessage(snappy.Encode(nil, cut)) })
+		sh.Add(vlib.App("CRawMsg", vlib.Bytes(cut), resMsg(out, derr, p)),
+			map[string]interface{}{"op": "damaged message", "bytes": len(cut), "of": len(inner)}, "damaged-message", true)
+	}
+	for i := 0; i < 100*cfg.Mult; i++ {
+		f := message.Frame{}
+		for k := 0; k < 1+r.Intn(3); k++ {
+			f = append(f, smallMsg(k))
+		}
+		inner, _ := snappy.Decode(nil, f.Encode())
+		cut := inner[:r.Intn(len(inner)+1)]
+		var out message.Frame
+		var derr error
+		p, _ := vlib.Catch(func() { out, derr = message.DecodeFrame(snappy.Encode(nil, cut)) })
+		res := "Panic"
+		if !p {
+			if derr != nil {
+				res = "(Err CEOF)"
+			} else {
+				res = vlib.App("Ok", frameTerm(out))
+			}
+		}
+		sh.Add(vlib.App("CRawFrame", vlib.Bytes(cut), res),
+			map[string]interface{}{"op": "damaged frame", "bytes": len(cut), "of": len(inner)}, "damaged-frame", true)
+	}
 	// 3. ids: creation (time observed, sequence and unique read through the hook)
 	for i := 0; i < 300*cfg.Mult; i++ {
 		n := 2 + r.Intn(5)
